@@ -1,6 +1,7 @@
 package c04
 
 import (
+	"fmt"
 	"regexp"
 	"strconv"
 	"strings"
@@ -10,16 +11,17 @@ import (
 )
 
 const (
-	kfTargetMode = "KF-C04-targetmode"
-	kfStylesRel  = "KF-C04-styles-rel"
-	kfRelIDAlloc = "KF-C04-relid-alloc"
-	kfPkgRelID   = "KF-C04-pkgrel-alloc"
-	kfTplPkgRels = "KF-C04-template-pkgrels"
-	kfOPCPrefix  = "KF-C04-opc-prefix"
-	kfMultiT     = "KF-C04-multi-t"
-	kfInline     = "KF-C04-inline-container"
-	kfBlockSdt   = "KF-C04-block-sdt"
-	kfNestedTbl  = "KF-C04-nested-table"
+	kfTargetMode  = "KF-C04-targetmode"
+	kfStylesRel   = "KF-C04-styles-rel"
+	kfRelIDAlloc  = "KF-C04-relid-alloc"
+	kfRelIDHeader = "KF-C04-relid-alloc-header"
+	kfPkgRelID    = "KF-C04-pkgrel-alloc"
+	kfTplPkgRels  = "KF-C04-template-pkgrels"
+	kfOPCPrefix   = "KF-C04-opc-prefix"
+	kfMultiT      = "KF-C04-multi-t"
+	kfInline      = "KF-C04-inline-container"
+	kfBlockSdt    = "KF-C04-block-sdt"
+	kfNestedTbl   = "KF-C04-nested-table"
 )
 
 func hasOp(c Case, kinds ...string) bool {
@@ -81,6 +83,23 @@ func ridNumber(id string) (int, bool) {
 	return n, true
 }
 
+// libraryDense reports the number of non-styles relationships of the main part and whether their ids are
+// the library's own numbering rId2..rId<n+1> in order (then rId<count+2> is always fresh).
+func libraryDense(p foreign.Package) (int, bool) {
+	n := 0
+	dense := true
+	for _, r := range p.DocRels {
+		if r.Type == foreign.RelStyles {
+			continue
+		}
+		n++
+		if k, ok := ridNumber(r.ID); !ok || k != n+1 {
+			dense = false
+		}
+	}
+	return n, dense
+}
+
 const docRels = "word/_rels/document.xml.rels: "
 const pkgRels = "_rels/.rels: "
 
@@ -128,23 +147,43 @@ var findings = []kit.Finding[Case]{
 			if adds == 0 {
 				return false
 			}
-			n := 0
-			dense := true
-			for _, r := range c.Pkg.DocRels {
-				if r.Type == foreign.RelStyles {
-					continue
-				}
-				n++
-				if k, ok := ridNumber(r.ID); !ok || k != n+1 {
-					dense = false
-				}
-			}
+			n, dense := libraryDense(c.Pkg)
 			if dense {
 				return false
 			}
 			k, ok := ridNumber(detailID(f))
 			// reopen / template render keep the list length, so the ids handed out lie in [n+2, n+1+adds]
 			return ok && k >= n+2 && k <= n+1+adds
+		},
+	},
+	{
+		ID:     kfRelIDHeader,
+		Clause: "C04.N1",
+		Desc:   "same id allocation (rId<count+2>) seen through the parts: a header/footer added after open gets the id of a header/footer relationship of the package; the next call for the same kind resolves the kind's reference to the package's part and overwrites it",
+		// input class: two or more header/footer calls, ids that are not the library's dense numbering, and the changed part is the
+		// target of a header/footer relationship of the package whose id the allocator can hand out
+		Trigger: func(c Case, f kit.Failure) bool {
+			hfOps := countOps(c, "header", "footer", "headerpn", "footerpn", "fheader", "ffooter")
+			if hfOps < 2 || !strings.Contains(f.Detail, " changed: ") {
+				return false
+			}
+			n, dense := libraryDense(c.Pkg)
+			if dense {
+				return false
+			}
+			adds := countOps(c, relAdding...)
+			for _, r := range c.Pkg.DocRels {
+				if r.Type != foreign.RelHeader && r.Type != foreign.RelFooter {
+					continue
+				}
+				name := "word/" + strings.TrimPrefix(r.Target, "/word/")
+				if !strings.HasPrefix(f.Detail, fmt.Sprintf("part %q changed", name)) {
+					continue
+				}
+				k, ok := ridNumber(r.ID)
+				return ok && k >= n+2 && k <= n+1+adds
+			}
+			return false
 		},
 	},
 	{
